@@ -93,3 +93,13 @@ package smx509
 //@   assert before call appendToFreshChain#2: SIGOK == 1 && VALID == 1 && sameobj(arg1, candidate.cert)
 //@   heapnonnil
 //@   modifies everything
+
+// ---- CSR response parser (C13, C14): no panic for any DER; the decrypted encryption key is returned
+// only with a matching encryption certificate, the response only if the signing certificate matches
+// the given private key
+//@ func ParseCSRResponse property C13,C14
+//@   requires signPrivateKey != nil
+//@   havoccall ParseEnvelopedPrivateKey
+//@   loop 1 invariant -1 <= rangeindex && rangeindex < len(resp.SignCerts) && len(signCerts) == len(resp.SignCerts)
+//@   heapnonnil
+//@   modifies everything
